@@ -8,6 +8,10 @@ d = "/verif/seeded/" + name
 def sh(c, **k): return subprocess.run(c, shell=True, capture_output=True, text=True, **k)
 assert sh("git -C /repo status --porcelain").stdout.strip() == "", "repo not clean"
 res = {"name": name, "checks": {}}
+import shutil, tempfile
+saved = tempfile.mkdtemp(prefix="evidence-", dir="/verif/build")
+for c in checks:
+    if os.path.exists("/verif/evidence/%s.json" % c): shutil.copy("/verif/evidence/%s.json" % c, saved)
 r = sh("git -C /repo apply %s/patch.diff" % d); assert r.returncode == 0, r.stderr
 try:
     t = sh("cd /repo && /venv/bin/python -m pytest -q -p no:cacheprovider --continue-on-collection-errors 2>&1 | tail -1").stdout.strip()
@@ -27,6 +31,9 @@ try:
                 except Exception as ex: res["checks"][c]["replay_excerpt"] = repr(ex)
 finally:
     sh("git -C /repo checkout -- .")
+    for c in checks:      # the evidence written while the change was applied describes a broken tree: put the previous record back
+        if os.path.exists(os.path.join(saved, c + ".json")): shutil.copy(os.path.join(saved, c + ".json"), "/verif/evidence/%s.json" % c)
+    shutil.rmtree(saved, ignore_errors=True)
 dm = sh("cd /tmp && PYTHONPATH=/repo /venv/bin/python %s/demo.py" % d)
 res["demo_without_patch_exit"] = dm.returncode
 print(json.dumps(res, indent=1))
